@@ -44,20 +44,39 @@ class Tree:
         def atom():
             if names and rng.random() < 0.5:
                 n = rng.choice(names)
-                return n, self.macros[n] == '1'
+                return n, int(self.macros[n])
             b = rng.random() < 0.5
-            return ('1' if b else '0'), b
+            return ('1' if b else '0'), int(b)
+        if rng.random() < 0.25:
+            # integer operands, chains of == (left-associative in C), ! on any operand
+            def iatom():
+                if names and rng.random() < 0.5:
+                    n = rng.choice(names)
+                    t, v = n, int(self.macros[n])
+                else:
+                    v = rng.choice([0, 1, 2, 3, 10])
+                    t = str(v)
+                nn = rng.choice([0, 0, 0, 1, 2])
+                for _ in range(nn):
+                    v = int(v == 0)
+                return '!' * nn + t, v
+            t, v = iatom()
+            for _ in range(rng.randrange(1, 4)):
+                t2, v2 = iatom()
+                t, v = '%s == %s' % (t, t2), int(v == v2)
+            return t, v != 0
         if k < 3:
-            return atom()
+            t, v = atom()
+            return t, v != 0
         if k < 5:
             t, v = atom()
-            return '!' + t, not v
+            return '!' + t, v == 0
         if k < 7:
             a, va = atom()
             b, vb = atom()
             return '%s == %s' % (a, b), va == vb
         a, va = atom()
-        return '!!' + a, va
+        return '!!' + a, va != 0
 
     def inert(self, active):
         """directives that must have no effect when not active (and markers to observe them)"""
@@ -151,7 +170,7 @@ def gen_tree_case(rng, cid, maxdepth):
     pre = []
     for n in ['A', 'B', 'FLAG', 'ZERO']:
         if rng.random() < 0.6:
-            v = '0' if n == 'ZERO' else rng.choice(['0', '1'])
+            v = '0' if n == 'ZERO' else rng.choice(['0', '1', '0', '1', '2', '3'])
             macros[n] = v
             if rng.random() < 0.5:
                 defs.append((n, v))
@@ -166,6 +185,9 @@ def gen_tree_case(rng, cid, maxdepth):
 
 KNOWN_WITNESSES = {
     'if_two': ('#if 2\nchar yes;\n#else\nchar no;\n#endif\n', [], 'char yes;\n'),
+    'eq_chain_left': ('#if MODE == 2 == 1\nchar yes;\n#else\nchar no;\n#endif\n', [('MODE', '2')], 'char yes;\n'),
+    'eq_chain_left2': ('#if 0 == 0 == 2\nchar yes;\n#else\nchar no;\n#endif\n', [], 'char no;\n'),
+    'eq_chain_not': ('#if !3 == 0 == 1\nchar yes;\n#elif 2 == 2 == 2\nchar no;\n#else\nchar neither;\n#endif\n', [], 'char yes;\n'),
     'eq_values': ('#if V == 3\nchar yes;\n#else\nchar no;\n#endif\n', [('V', '2')], 'char no;\n'),
     # text and directives of groups that are not selected have no effect at all (repaired 4807eff)
     'skipped_quote': ('#if 0\nthis isn\'t "closed\n#endif\nchar ok;\n', [], 'char ok;\n'),
